@@ -385,7 +385,7 @@ func (c *Ctx) Finish(rule string) int {
 		"wall_s":      time.Since(c.Start).Seconds(),
 		"violations":  len(c.violations),
 	}
-	if c.Replay == "" {
+	if c.Replay == "" && c.Prop != "SELFTEST" && c.Prop != "C12RACE" {
 		os.MkdirAll(filepath.Join(home(), "evidence"), 0o755)
 		b, _ := json.MarshalIndent(ev, "", " ")
 		tmp := filepath.Join(home(), "evidence", c.Prop+".json.tmp")
